@@ -526,6 +526,7 @@ class SymX:
         self.box_site: dict[int, int] = {}  # box id -> id of the AST node that created it
         self.box_loops: dict[int, tuple] = {}  # box id -> ids of the loops that were running when it was created
         self.box_init: dict[int, Term] = {}  # box id -> contents at creation
+        self._iter_loops: dict[Term, tuple] = {}  # iterator term -> loops running when it was created
         self.mutable_sites: set[int] | None = None  # creation sites whose containers are mutated / escape (known after a first pass)
         self._site: ast.AST | None = None
 
@@ -555,6 +556,7 @@ class SymX:
         self.box_site = {}
         self.box_loops = {}
         self.box_init = {}
+        self._iter_loops = {}
         self._ids = itertools.count(1)
         self.notes = []
         self.mutable_sites = sites
@@ -591,13 +593,18 @@ class SymX:
         self.box_init[bid] = init
         return ("box", bid, kind, init)
 
+    def loops_since_creation(self, it: Term) -> bool:
+        """An iterator created outside the loops that are running now may have been advanced by earlier iterations."""
+        created = self._iter_loops.get(it)
+        return created is None or created != tuple(l.id for l in self.loops)
+
     @staticmethod
     def _snap(t: Term, st: State) -> Term:
         """A container as it is *now*: its display is replaced by the contents accumulated by the mutations executed so far.
         A copy made by `itertools.tee(s)` is `s` without the elements consumed from it by `next(...)` so far."""
-        if t[0] == "idx" and t[1][0] == "call" and t[1][1] == ("lib", "itertools.tee") and t[1][2] and t[2][0] == "const":
+        src = _iterator_source(t)
+        if src is not None:
             adv = st.heap.get(("#adv", t), 0)
-            src = t[1][2][0]
             return src if adv == 0 else ("slice", src, const(adv), NONE_T, NONE_T)
         if t[0] == "box":
             cur = st.heap.get(("#box", t[1]))
@@ -977,6 +984,7 @@ class SymX:
             loop = Loop(lid, "for", it, None, self.fi, s, early)
 
             counters = self._induction_variables(s, pre)
+            lags = self._lag_variables(s, pre, it)
 
             def make(changed: set) -> State:
                 b = pre.copy()
@@ -985,6 +993,8 @@ class SymX:
                 j = ("elem", ("call", ("builtin", "range"), (("call", ("builtin", "len"), (it,), ()),), ()), lid)
                 for name, start in counters.items():
                     b.env[name] = j if start == 0 else ("binop", "+", j, const(start))
+                for name, seq_ in lags.items():
+                    b.env[name] = ("idx", seq_, j)  # the element before the current one
                 self._bind_iteration(s.target, it, b, lid)
                 return b
 
@@ -1035,6 +1045,24 @@ class SymX:
                 for t in tg:
                     plain |= {x.id for x in ast.walk(t) if isinstance(x, ast.Name)}
         return {n for n in aug - plain if st.env.get(n, ("x",))[0] == "box"}
+
+    @staticmethod
+    def _lag_variables(s: ast.For, pre: State, it: Term) -> dict[str, Term]:
+        """`prev` in `prev = s[0]; for cur in s[1:]: ...; prev = cur` holds s[j] in iteration j (the element before `cur`)."""
+        out: dict[str, Term] = {}
+        if not isinstance(s.target, ast.Name) or not s.body or any(isinstance(n, ast.Continue) for b in s.body for n in _walk_own(b)):
+            return out
+        last = s.body[-1]
+        if not (isinstance(last, ast.Assign) and len(last.targets) == 1 and isinstance(last.targets[0], ast.Name) and isinstance(last.value, ast.Name) and last.value.id == s.target.id):
+            return out
+        name = last.targets[0].id
+        stores = [n for b in s.body for n in _walk_own(b) if isinstance(n, ast.Name) and n.id == name and isinstance(n.ctx, (ast.Store, ast.Del))]
+        cur = pre.env.get(name)
+        if len(stores) != 1 or cur is None or cur[0] != "idx" or not is_const(cur[2], 0):
+            return out
+        if it == ("slice", cur[1], const(1), NONE_T, NONE_T):
+            out[name] = cur[1]
+        return out
 
     @staticmethod
     def _induction_variables(s: ast.For, pre: State) -> dict[str, int]:
@@ -1424,7 +1452,8 @@ class SymX:
             c = mod.constants[name]
             if isinstance(c, ast.Constant):
                 return const(c.value)
-            return ("lib", f"{mod.name}.{name}")
+            v = self._module_constant(mod, name, c)
+            return v if v is not None else ("lib", f"{mod.name}.{name}")
         fq = self.repo.resolve_name(mod, ast.Name(id=name, ctx=ast.Load()))
         if fq is not None:
             if fq in self.repo.classes:
@@ -1436,10 +1465,41 @@ class SymX:
                     return ("fn", om.functions[attr].fq)
                 if attr in om.constants and isinstance(om.constants[attr], ast.Constant):
                     return const(om.constants[attr].value)
+                if attr in om.constants:
+                    v = self._module_constant(om, attr, om.constants[attr])
+                    if v is not None:
+                        return v
             return ("lib", fq)
         if name in BUILTINS or hasattr(_builtins, name):
             return ("builtin", name)
         return ("unk", name, 0)
+
+    def _module_constant(self, mod, name: str, expr: ast.expr) -> "Term | None":
+        """Value of `NAME = Path(".")` / `NAME = ("a", "b")` / `NAME = object()`: side-effect free constructor calls and displays
+        of constants, evaluated in the module that defines them."""
+        def simple(e: ast.expr) -> bool:
+            if isinstance(e, ast.Constant):
+                return True
+            if isinstance(e, (ast.Tuple, ast.List)):
+                return all(simple(x) for x in e.elts)
+            if isinstance(e, ast.Call) and isinstance(e.func, (ast.Name, ast.Attribute)) and not e.keywords:
+                fn = e.func.id if isinstance(e.func, ast.Name) else e.func.attr
+                return fn in ("Path", "PurePath", "object", "frozenset", "tuple") and all(simple(x) for x in e.args)
+            return False
+
+        if not simple(expr) or isinstance(expr, ast.List):
+            return None
+        probe = FuncInfo(name="<module>", qualname=f"<module {name}>", node=ast.Lambda(args=ast.arguments(posonlyargs=[], args=[], kwonlyargs=[], kw_defaults=[], defaults=[]), body=expr), module=mod)
+        self.frames.append(Frame(probe, None))
+        try:
+            v = self.eval(expr, State([{}], {}, ()))
+        except AnalysisError:
+            v = None
+        finally:
+            self.frames.pop()
+        if v is not None and v[0] == "call" and v[1] == ("builtin", "object"):
+            return ("lib", f"{mod.name}.{name}")  # a sentinel: only its identity matters
+        return v
 
     def _attr(self, base: Term, attr: str, st: State, node: ast.AST | None) -> Term:
         if base[0] == "box":
@@ -1883,9 +1943,16 @@ class SymX:
                 return items[0] if len(items) == 1 else ("boolop", "and" if name == "all" else "or", tuple(items)) if items else const(name == "all")
         if name == "next" and args and call is not None and call.args and isinstance(call.args[0], ast.Name):
             raw = st.env.get(call.args[0].id)
-            if raw is not None and raw[0] == "idx" and raw[1][0] == "call" and raw[1][1] == ("lib", "itertools.tee"):
-                st.heap[("#adv", raw)] = st.heap.get(("#adv", raw), 0) + 1
-                return ("unk", "consumed element", self.fresh())
+            src = _iterator_source(raw) if raw is not None else None
+            if src is not None and not self.loops_since_creation(raw):
+                adv = st.heap.get(("#adv", raw), 0)
+                st.heap[("#adv", raw)] = adv + 1
+                return ("idx", src, const(adv))  # the element consumed from the iterator
+        if name == "next" and args:
+            # consuming an element of an iterator: a different element every time
+            res = ("elem", args[0], self.fresh())
+            self._record("mut", ("builtin", "next"), args[0], "next", args[1:], kwargs, st, call, res)
+            return res
         if name == "isinstance" and len(args) == 2:
             return ("call", ("builtin", name), args, kwargs)
         if name == "cast" and len(args) == 2:
@@ -1896,6 +1963,10 @@ class SymX:
             f = self.truth(args[0])
             if f[0] == "const":
                 return const(f[1])
+        if name == "iter" and len(args) == 1:
+            it_ = ("call", ("builtin", "iter"), (args[0], const(self.fresh())), ())  # every iter() call makes a new iterator
+            self._iter_loops[it_] = tuple(l.id for l in self.loops)
+            return it_
         res = ("call", ("builtin", name), args, kwargs)
         quiet = ("len", "isinstance", "str", "bool", "tuple", "zip", "enumerate", "range", "sorted", "reversed", "map", "filter", "iter", "any", "all", "min", "max", "int", "repr", "hasattr", "getattr", "type", "id", "sum")
         takes_callable = name in ("map", "filter", "sorted", "min", "max") and any(a[0] in ("attr", "fn", "lambda", "partial") for a in [*args, *[v for _k, v in kwargs]])
@@ -1925,6 +1996,10 @@ class SymX:
             return ("partial", args[0], tuple(args[1:]), tuple(kwargs))
         if dotted in ("typing.cast",) and len(args) == 2:
             return args[1]
+        if dotted == "itertools.tee" and args:
+            res0 = ("call", fterm, args, kwargs)
+            for i in range(2 if len(args) < 2 or args[1][0] != "const" else int(args[1][1])):
+                self._iter_loops[("idx", res0, const(i))] = tuple(l.id for l in self.loops)
         if dotted in ("collections.deque", "collections.defaultdict", "collections.OrderedDict", "collections.Counter", "networkx.DiGraph", "networkx.Graph"):
             res: Term = self._box(dotted.rsplit(".", 1)[-1], ("call", fterm, args, kwargs), call)
         else:
@@ -1964,6 +2039,15 @@ def _nonempty_str(t: Term) -> bool:
     if t[0] == "mcall" and t[2] == "as_posix":
         return True
     return False
+
+
+def _iterator_source(t: Term) -> "Term | None":
+    """The sequence behind an explicit iterator: `iter(s)` or a copy made by `itertools.tee(s)`."""
+    if t[0] == "call" and t[1] == ("builtin", "iter") and len(t[2]) == 2:
+        return t[2][0]
+    if t[0] == "idx" and t[1][0] == "call" and t[1][1] == ("lib", "itertools.tee") and t[1][2] and t[2][0] == "const":
+        return t[1][2][0]
+    return None
 
 
 def _never_none(t: Term) -> bool:
